@@ -41,4 +41,9 @@ META = {
         note="Trusted: Lean kernel; engine model tied by correspondence; directory listing through FUSE not exercised (no mount).",
         technique="Lean 4 theorems over the engine model + differential histories with drop/recreate on primary and replica",
     ),
+    "C05": dict(
+        text="Lean 4 proofs (all images, all partial-write subsets) that journal rollback restores the pre-transaction image, that re-applying the newest file is idempotent, and hence that recovery yields exactly the image before or after the interrupted commit (C05_atomic), plus maxLTXFile correctness; exhaustive enumeration, on the real code, of every crash point (each OS-layer call, page write, file truncate, operation boundary) inside each transaction shape with a fresh Store.Open on a copy of the data directory per point, judged by the Lean spec predicates.",
+        note="Trusted: Lean kernel; process-death model = directory copy between calls (no torn writes / power loss); Store.OS wrapper and verif crash-point hook; recovery model tied by clean-restart correspondence.",
+        technique="Lean 4 theorems on rollback/re-apply at image level + exhaustive crash-point enumeration on the real code judged by Lean spec predicates",
+    ),
 }
